@@ -22,6 +22,18 @@ def expand (runs : List (RowRun α)) (r c : Nat) : α :=
   | none => default
   | some evs => cellAt evs c
 
+/-- value at column `c` of a row of events with element kinds: an event of either kind — ordinary or
+    *covered* — occupies `count` columns and stores its value in each of them -/
+def cellAtK {ε : Type} (val : ε → α) : List (CellKind × ε × Nat) → Nat → α
+  | [], _ => default
+  | (_, e, k) :: rest, c => if c < k then val e else cellAtK val rest (c - k)
+
+/-- semantic expansion of a table whose cell events carry their element kind (and a payload seen through `val`) -/
+def expandK {ε : Type} (val : ε → α) (runs : List (RowRunK ε)) (r c : Nat) : α :=
+  match runAt runs r with
+  | none => default
+  | some evs => cellAtK val evs c
+
 /-- the run list seen through one component `val` of the cell payload (values, or formulas) -/
 def runsOf {ε : Type} (val : ε → α) (runs : List (Nat × List (ε × Nat))) : List (RowRun α) :=
   runs.map fun r => (r.1, r.2.map fun x => (val x.1, x.2))
